@@ -25,10 +25,11 @@ type c08Plugin struct {
 	snapshot map[string]int
 	created  map[string]int
 	synced   int
+	failSync bool // its Synchronize handler fails: it never completes registration
 }
 
-func runC08Round(dir string, g *rand.Rand, creators, nplugins, perCreator int, res *ev.Result, tag string, hookOn bool) {
-	what := map[string]any{"round": tag, "creators": creators, "plugins": nplugins, "containers_per_creator": perCreator, "hooks": hookOn}
+func runC08Round(dir string, g *rand.Rand, creators, nplugins, perCreator, failing int, res *ev.Result, tag string, hookOn bool) {
+	what := map[string]any{"round": tag, "creators": creators, "plugins": nplugins, "containers_per_creator": perCreator, "hooks": hookOn, "plugins_failing_sync": failing}
 	rt, err := rig.NewRuntime(dir)
 	if err != nil {
 		res.Note("runtime: %v", err)
@@ -73,8 +74,15 @@ func runC08Round(dir string, g *rand.Rand, creators, nplugins, perCreator int, r
 	}()
 	for i := 0; i < nplugins; i++ {
 		cp := &c08Plugin{pos: i, snapshot: map[string]int{}, created: map[string]int{}}
+		cp.failSync = failing > 0 && i%3 == 1
 		h := rig.Handlers{
 			Synchronize: func(_ context.Context, pods []*api.PodSandbox, cs []*api.Container) ([]*api.ContainerUpdate, error) {
+				if cp.failSync {
+					cp.mu.Lock()
+					cp.synced++
+					cp.mu.Unlock()
+					return nil, fmt.Errorf("plugin %d refuses to synchronize", cp.pos)
+				}
 				cp.mu.Lock()
 				cp.synced++
 				for _, c := range cs {
@@ -197,6 +205,14 @@ func runC08Round(dir string, g *rand.Rand, creators, nplugins, perCreator int, r
 	overl := 0
 	for _, cp := range plugins {
 		cp.mu.Lock()
+		if cp.failSync {
+			if len(cp.created) > 0 {
+				res.Violate("C08/activated-after-failed-sync", fmt.Sprintf("plugin %d failed its synchronization yet received %d creation requests", cp.pos, len(cp.created)), what)
+			}
+			res.Count("failed_synchronizations", 1)
+			cp.mu.Unlock()
+			continue
+		}
 		if cp.synced != 1 {
 			res.Violate("C08/sync-count", fmt.Sprintf("plugin %d was synchronized %d times", cp.pos, cp.synced), what)
 		}
@@ -265,7 +281,8 @@ func runC08(c *ev.ChildEnv, res *ev.Result) {
 		dir := fmt.Sprintf("%s/r%d", c.Dir, i)
 		mkdirAll(dir)
 		res.Eval()
-		runC08Round(dir, g, creators, nplugins, per, res, tag, on)
+		failing := i % 2
+		runC08Round(dir, g, creators, nplugins, per, failing, res, tag, on)
 		if i == 0 {
 			res.Sample(map[string]any{"round": tag, "creators": creators, "plugins": nplugins, "containers_per_creator": per, "hooks": on,
 				"oracle": "for every registered plugin and every container of the final store: [in snapshot] + #creation requests = 1; no sync while a block is held"})
